@@ -45,7 +45,7 @@ package calendar
 //@     all(0, 14, func(i int) bool { return ytMonth(y, i).GetFirstJulianDay() == float64(mF(y, i)) && ytMonth(y, i).GetZhiIndex() == modf(mI(y, i)+1, 12) &&
 //@       1 <= mI(y, i) && mI(y, i) <= 13 && mM(y, i) != 0 && -12 <= mM(y, i) && mM(y, i) <= 12 && 28 <= mD(y, i) && mD(y, i) <= 30 })
 
-//@ axiom tableShapeAx(y int) [C06 C01]
+//@ axiom tableShapeAx(y int) [C06 C01 C11]
 //@   requires 0 <= y && y <= 9999
 //@   ensures tableShape(y)
 //@   domain y 0 9999
@@ -689,14 +689,15 @@ package calendar
 //@ # Safety-only contracts: under the receiver's type invariant the method returns without panicking - every index is
 //@ # in range, no nil dereference, no failing type assertion, no division by zero, every callee precondition holds.
 //@ # T14 every table lists month 1 of its own lunar year (the almanac's "how many ..." counters start from it)
+//@ # (it begins inside civil year y, except for lunar years 16 and 19 of the first reform era, which begin in December)
 //@ axiom monthOneAx(y int) [C08 C06]
-//@   requires 0 <= y && y <= 9999
+//@   requires 0 <= y && y <= 9999 && y != 16 && y != 19
 //@   ensures exists(0, 14, func(i int) bool { return mY(y, i) == y && mM(y, i) == 1 && jdn(y, 1, 1) <= mF(y, i) && mF(y, i) <= jdn(y, 12, 31) })
 //@   domain y 0 9999
 //@   checked_by tables
 
 //@ func (lunarYear *LunarYear) getZaoByGan(index int, name string) string [C08]
-//@   requires 1 <= lunarYear.year && lunarYear.year <= 9998 && 0 <= index && index <= 9
+//@   requires 1 <= lunarYear.year && lunarYear.year <= 9998 && lunarYear.year != 16 && lunarYear.year != 19 && 0 <= index && index <= 9
 //@   use monthOneAx(lunarYear.year)
 //@   use tableAx(lunarYear.year)
 //@   use uniqueAx(lunarYear.year)
@@ -706,7 +707,7 @@ package calendar
 //@   use_if yOfMono(mF(lunarYear.year, k), jdn(lunarYear.year, 12, 31)) for k in 0..14
 
 //@ func (lunarYear *LunarYear) getZaoByZhi(index int, name string) string [C08]
-//@   requires 1 <= lunarYear.year && lunarYear.year <= 9998 && 0 <= index && index <= 11
+//@   requires 1 <= lunarYear.year && lunarYear.year <= 9998 && lunarYear.year != 16 && lunarYear.year != 19 && 0 <= index && index <= 11
 //@   use monthOneAx(lunarYear.year)
 //@   use tableAx(lunarYear.year)
 //@   use uniqueAx(lunarYear.year)
@@ -740,7 +741,7 @@ package calendar
 //@ sweep XiaoYun: self.lunar != nil && self.daYun != nil && 0 <= self.index && self.index <= 9 && 0 <= self.daYun.index && self.daYun.index <= 9 && 1 <= self.daYun.startAge && self.daYun.startAge <= 200 && self.lunar.solar.year <= 9999 && modf(self.lunar.timeGanIndex, 2) == modf(self.lunar.timeZhiIndex, 2) [C08]
 //@ sweep Tao: self.lunar != nil [C08]
 //@ sweep Foto: self.lunar != nil [C08]
-//@ sweep LunarYear: 1 <= self.year && self.year <= 9998 [C08]
+//@ sweep LunarYear: 1 <= self.year && self.year <= 9998 && self.year != 16 && self.year != 19 [C08]
 //@ sweep Lunar LunarMonth LunarTime EightChar NineStar JieQi Fu ShuJiu TaoFestival FotoFestival [C08]
 
 //@ # the Yang Gong taboo day predicate is total (it walks the day's festival list)
